@@ -3,6 +3,7 @@
 import os, sys, random, json
 sys.path.insert(0, os.path.dirname(os.path.abspath(__file__)))
 from vlib import *
+import gen_rope
 PROP = 'C08'
 
 def gen_script(rng, l0, n, dist, far=False):
@@ -14,6 +15,20 @@ def gen_script(rng, l0, n, dist, far=False):
         if far and hi > 80 and rng.random() < 0.5: return hi - 1 - rng.randrange(40)
         return rng.randrange(hi)
     for _ in range(n):
+        if rng.random() < 0.04:          # a burst: many inserts at one place (or walking forward), many single deletes at one index
+            cnt = rng.choice([9, 17, 40, 100]); i = pos(len(l) + 1); kind = rng.choice(['same', 'walk', 'del'])
+            for j in range(cnt):
+                if kind == 'del':
+                    if i >= len(l): break
+                    del l[i]; sc.append(f"D {i} -")
+                else:
+                    v = rng.randrange(-50, 1000); q = i if kind == 'same' else i + j; l.insert(q, v); sc.append(f"I {v} {q}")
+            hit('burst_' + kind); continue
+        if len(l) >= 24 and rng.random() < 0.03:      # several consecutive rope chunks grown to 13..15 elements, then the chunk before them overflows
+            for (i, cnt) in gen_rope.fill_plan(rng, len(l)):
+                for _ in range(cnt):
+                    v = rng.randrange(-50, 1000); q = min(i, len(l)); l.insert(q, v); sc.append(f"I {v} {q}")
+            hit('fill_consecutive_chunks'); continue
         k = rng.random()
         if k < 0.25 and l:
             i = pos(len(l)); v = rng.randrange(-50, 1000); l[i] = v; sc.append(f"R {v} {i}"); hit('replace')
